@@ -164,6 +164,14 @@ func runStoCase(c *stoCase) *stoResult {
 		ps   []storage.Part
 		ws   []io.WriteSeeker
 	}
+	if c.Index%4 == 1 {
+		// a leftover of the same name (an earlier run in the same Directory, a file not removed
+		// yet), longer than what is going to be written: it must not shine through
+		junk := bytes.Repeat([]byte{0xEE, 0x11, 0xEE, 0x22}, 100000)
+		if err := os.WriteFile(filepath.Join(dir, "seg.mp4"), junk, 0o644); err == nil {
+			res.obs["preexisting_longer_file"]++
+		}
+	}
 	ramF, _ := storage.NewFactoryRAM().NewFile("seg.mp4")
 	diskF, err := storage.NewFactoryDisk(dir).NewFile("seg.mp4")
 	if err != nil {
